@@ -158,11 +158,7 @@ VH_MAIN
 #elif ROUTINE == 3
     {
         trans_t trans = (trans_t)nd_enum();
-#if PLN <= 2
-        if (trans != NOTRANS && trans != TRANS) expected = 1;
-#else
         if (trans != NOTRANS && trans != TRANS && trans != CONJ) expected = 1;
-#endif
         else if (L.nrow != L.ncol || L.nrow < 0) expected = 3;
         else if (U.nrow != U.ncol || U.nrow < 0) expected = 4;
         else if (Bst.lda < (L.nrow > 0 ? L.nrow : 0)) expected = 6;
